@@ -126,6 +126,10 @@ class VServiceTransport(_RecMixin, ServiceRequestingTransport):
 KEX_TYPES = frozenset([20, 21] + list(range(30, 50)))
 
 
+class NotSent(Exception):
+    """Puppet.send_conn: the puppet's own key exchange did not end in time, nothing was written"""
+
+
 class RecPacketizer(Packetizer):
     """See module docstring. `log` entries: (seqno, ptype, payload_without_type_byte)."""
 
@@ -164,10 +168,6 @@ class RecPacketizer(Packetizer):
             if time.time() >= end:
                 raise NotSent("own exchange (KEXINIT written, NEWKEYS not yet) still open after %.0f s" % timeout)
             time.sleep(0.001)
-
-
-class NotSent(Exception):
-    """Puppet.send_conn: the puppet's own key exchange did not end in time, nothing was written"""
 
     def read_message(self):
         ptype, m = Packetizer.read_message(self)
